@@ -34,6 +34,8 @@ def sweep(L, entries, le, rep, label):
     for key, names, exc in entries:
         for n in names:
             for v in (n, n.lower(), n.upper()):
+                if v.lower() != n.lower():
+                    continue
                 rep.case((label, v), nontrivial=True, sample={'table': label, 'name': v, 'key': key} if len(rep.samples) < 4 else None)
                 rep.count(label + '_names')
                 err = None
@@ -64,6 +66,9 @@ def sweep(L, entries, le, rep, label):
 
 def synth_index(rng):
     words = ['mit', 'gpl-2.0', 'GPL-2.0', 'bsd', 'apache-2.0', 'cpe', 'lgpl', 'x11']
+    if rng.random() < 0.2:
+        # letters whose case folding is not their lower-casing
+        words = words + ['gruß-lizenz', 'maß-ausnahme', 'ﬁle-lic']
     idx = []
     for _ in range(rng.randint(1, 6)):
         e = {}
@@ -115,6 +120,8 @@ def sweep_synth(L, ents, le):
     for key, names, exc in ents:
         for n in names:
             for v in (n, n.lower(), n.upper()):
+                if v.lower() != n.lower():
+                    continue       # not a case variant (upper-casing a letter like U+00DF changes the word)
                 try:
                     e = L.parse(v)
                     if not isinstance(e, le.LicenseSymbol) or e.key != key or bool(e.is_exception) != exc or str(e) != key:
